@@ -299,7 +299,12 @@ pub fn tagify_events(events: InputList) -> Result<Vec<Tag>> {
                 tags.push(Tag::Comment(text, None));
             }
             Event::Text(t) => {
-                let text = String::from_utf8(t.to_vec())?;
+                // the reader hands out raw (still escaped) text; a tag's text is character
+                // data, escaped again when written
+                let text = match input_ev.text_string() {
+                    Some(text) => text,
+                    None => String::from_utf8(t.to_vec())?,
+                };
                 if let Some(t) = tags.last_mut() {
                     t.set_text(text)
                 } else {
